@@ -173,12 +173,16 @@ class SymIntZ:
     def __rshift__(self, k):
         if not isinstance(k, int):
             raise Unsupported("symbolic shift")
+        if k == 0:
+            return self
         return SymIntZ(self.t / (1 << k))
 
     def __and__(self, m):
         if not isinstance(m, int) or m < 0:
             raise Unsupported("& with non-constant")
         if m & (m + 1) == 0:               # 2^n - 1
+            if self.bits is not None and self.bits[1] <= m.bit_length() and self.cbase == 0:
+                return self                # already known to fit: the mask is the identity
             return SymIntZ(self.t % (m + 1), (0, m.bit_length()))
         if m & (m - 1) == 0:               # single bit 2^n
             return SymIntZ(((self.t / m) % 2) * m)
